@@ -35,6 +35,7 @@ RULE = (
     "several sheets with / without sheet name}; complete systems through from_csv / from_excel / "
     "from_data_reader. Non-trivial = definition with at least one flow / stock / parameter or a file. Distinct by "
     "construction."
+    " Also: several stocks of one class / lifetime / dims (own lifetime model each), one compound reader for two definitions, the dimension's name or letter as an item, a reader knowing more dimensions than defined, unnamed parameters."
 )
 ASSUMPTIONS = [
     "bounds: <= 3 processes, <= 2 flows per enumerated list, 3 dimensions + alternative time letter, item lists of <= 3 items",
